@@ -4,7 +4,7 @@ import Refinery.Model.Reload
 Oracle for config reloads (C27).
 case args: dep=<prefix|cachecap> ver=<none|vX> ls=<listeners registered after start> [model=fixed]
 ops (see harness/cmd/reload/main.go):
-  wc <tok> | wr <tok> | start | reg | reload t|p|x | stress <G> <R> <mode> | await | hold  (kind=watcher)
+  wc <tok> | wr <tok> | start | reg | reload t|p|x | stress <G> <R> <mode> | await | hold  (kind=watcher) | nested <A> <B>
 tokens: ok:<v>:<n> | warn:<v>:<n> | bad:<k>:<v> | gone
 obs:  su=<ok|warn|fail|-> err=<none|warn|fail|logged|-> ap=<c>/<r>|- send=<v>|- rate=<v>|- n=<c0,c1,…>|-
 `stress` is judged by the monitor only; the model continues from the state the implementation
@@ -34,8 +34,8 @@ def errStr : Seq.Err → String
 
 def stateStr (s : Seq.St) (su err : String) : String :=
   if s.started then
-    s!"su={su} err={err} ap={tokStr s.applied.1}/{tokStr s.applied.2} send={s.applied.1.val} rate={s.applied.2.val} n={natList s.counts}"
-  else s!"su={su} err={err} ap=- send=- rate=- n=-"
+    s!"su={su} err={err} ap={tokStr s.applied.1}/{tokStr s.applied.2} send={s.applied.1.val} rate={s.applied.2.val} n={natList s.counts} g=ok"
+  else s!"su={su} err={err} ap=- send=- rate=- n=- g=ok"
 
 structure OSt where
   s : Seq.St := {}
@@ -74,6 +74,19 @@ def oStep (o : OSt) (op : List String) (exts : List (List String)) : OSt × Opti
   -- kind=watcher: the real ConfigWatcher calls Reload at every tick of its timer, whatever the
   -- previous call returned; by the time the harness answers at least one tick saw the present files
   -- (`watcher_applies_after_rejected`: one tick is enough, further ticks change nothing)
+  -- a trigger that arrives inside a notification of reload #1 is a reload after it
+  -- (`reload_during_notification_not_lost`): wc A; reload; if that one notified: wc B; reload
+  | ["nested", a, b] =>
+    if !s.started then (o, some "nostart") else
+    if s.counts.isEmpty then (o, some "nolistener") else
+    match parseTok a, parseTok b with
+    | some ca, some cb =>
+      let s1 := (Seq.step s (.wc ca)).1
+      let s2 := (Seq.step s1 .reload).1
+      let fired := s2.napplied != s1.napplied
+      let s3 := if fired then (Seq.step (Seq.step s2 (.wc cb)).1 .reload).1 else s2
+      ({ o with s := s3 }, some (stateStr s3 (buildStr (build s3.cfile s3.rfile)) "-" ++ s!" fired={if fired then 1 else 0}"))
+    | _, _ => (o, some "bad-op")
   | ["await"] =>
     if !s.started then (o, some "nostart") else
     match Seq.step s .reload with
@@ -118,6 +131,14 @@ def tokVal (t : String) : String :=
 
 def mkFail (sig what : String) : Fail := { prop := "C27", sig := sig, what := what }
 
+/-- `g=` of an observation: the getters of the running config that differ from a fresh load -/
+def genericGetterFails (toks : List String) : List Fail :=
+  match kv toks "g" with
+  | some "ok" => []
+  | some names => (names.splitOn ",").map fun n =>
+      mkFail s!"C27:getter-not-applied-content:{n}" s!"the running config has the hashes of the files on disk but {n}() does not return what a fresh load of those files returns"
+  | none => []
+
 def getterFails (ap send rate : String) : List Fail :=
   match ap.splitOn "/" with
   | [c, r] =>
@@ -140,7 +161,7 @@ def mon (m : MSt) (op : List String) (exts : List (List String)) (obs : Option S
       let cs := parseNatList ((kv toks "n").getD "-")
       ({ m with started := true, ap := ap, counts := cs },
         (if ap != disk then [mkFail "C27:startup-content" s!"started on {disk} but running {ap}"] else []) ++
-        getterFails ap ((kv toks "send").getD "?") ((kv toks "rate").getD "?"))
+        getterFails ap ((kv toks "send").getD "?") ((kv toks "rate").getD "?") ++ genericGetterFails toks)
   | ["reg"], some o =>
     if !m.started then (m, []) else
     let toks := o.splitOn " "
@@ -172,7 +193,32 @@ def mon (m : MSt) (op : List String) (exts : List (List String)) (obs : Option S
         (if appliedNow && cs != bumped then [mkFail "C27:notify-count" s!"change applied, counts {natList m.counts} -> {natList cs} (want +1 each)"] else []) ++
         (if changed && !appliedNow && cs != m.counts then [mkFail "C27:notify-without-apply" s!"nothing applied but counts {natList m.counts} -> {natList cs}"] else [])
     ({ m with ap := ap, counts := cs },
-      fails ++ getterFails ap ((kv toks "send").getD "?") ((kv toks "rate").getD "?"))
+      fails ++ getterFails ap ((kv toks "send").getD "?") ((kv toks "rate").getD "?") ++ genericGetterFails toks)
+  | ["nested", a, b], some o =>
+    if !m.started || o == "nolistener" then (m, []) else
+    let toks := o.splitOn " "
+    let su := (kv toks "su").getD "?"
+    let ap := (kv toks "ap").getD "?"
+    let cs := parseNatList ((kv toks "n").getD "-")
+    let fired := (kv toks "fired") == some "1"
+    let diskA := s!"{a}/{m.rfile}"
+    let diskB := s!"{b}/{m.rfile}"
+    let disk := if fired then diskB else diskA
+    let accepted := su == "ok" || su == "warn"
+    -- callbacks of reload #1 happened iff listener 0 fired; then A was applied (+1 each), and the
+    -- second trigger must bring B (if startup accepts it and it differs from A: +1 each more)
+    let want := if fired then (if su == "ok" && b != a then m.counts.map (· + 2) else m.counts.map (· + 1)) else m.counts
+    let fails : List Fail :=
+      (if fired && su == "ok" && ap != diskB then
+        [mkFail "C27:trigger-during-notification-lost" s!"a Reload triggered while listener 0 was being notified of {diskA} found {diskB} on disk (startup says ok); after both returned the running config is {ap}"]
+       else []) ++
+      (if fired && su == "fail" && ap != diskA then [mkFail "C27:rejected-content-applied" s!"startup rejects {diskB} but running config is {ap} (expected {diskA})"] else []) ++
+      (if !fired && accepted && diskA != m.ap && ap != diskA then
+        [mkFail (if su == "warn" then "C27:warning-only-not-reloaded" else "C27:acceptable-change-not-applied") s!"files hold {diskA} (startup says {su}), running config stays {ap}"] else []) ++
+      (if (su == "ok" || su == "fail") && cs != want && (fired || ap == m.ap) then
+        [mkFail "C27:trigger-during-notification:notify-count" s!"fired={fired} counts {natList m.counts} -> {natList cs}, want {natList want}"] else [])
+    ({ m with cfile := if fired then b else a, ap := ap, counts := cs },
+      fails ++ (if ap == disk then getterFails ap ((kv toks "send").getD "?") ((kv toks "rate").getD "?") else []) ++ genericGetterFails toks)
   | ["await"], some o =>
     if !m.started then (m, []) else
     let toks := o.splitOn " "
@@ -193,7 +239,7 @@ def mon (m : MSt) (op : List String) (exts : List (List String)) (obs : Option S
       (if !changed && cs != m.counts then [mkFail "C27:watcher:unchanged-renotified" s!"content unchanged ({disk}) but counts {natList m.counts} -> {natList cs}"] else []) ++
       (if changed && ap == m.ap && cs != m.counts then [mkFail "C27:watcher:notify-without-apply" s!"nothing applied but counts {natList m.counts} -> {natList cs}"] else [])
     ({ m with ap := ap, counts := cs, rejected := if ap == disk then false else m.rejected },
-      fails ++ getterFails ap ((kv toks "send").getD "?") ((kv toks "rate").getD "?"))
+      fails ++ getterFails ap ((kv toks "send").getD "?") ((kv toks "rate").getD "?") ++ genericGetterFails toks)
   | ["hold"], some o =>
     if !m.started then (m, []) else
     let toks := o.splitOn " "
